@@ -1,7 +1,7 @@
 (* driver/main.ml — evaluates the extracted model on case lines and prints canonical results.
    Hand-written glue (trusted): text <-> extracted datatypes.  One case per input line:
      id \t OP \t args...        ->      id \t status [\t payload...]
-   OP:  WP prim value | RP prim hex | CK alg hex | E tid value hex | D tid value hex | Z tid *)
+   OP:  WP prim value | RP prim hex | CK alg hex | E tid value hex | D tid value hex | Z tid | RG calls | BF arrayhex k bufferops *)
 module M = Model
 
 (* ---------- numbers ---------- *)
@@ -50,6 +50,7 @@ let rec int_of_pos = function M.XH -> 1 | M.XO p -> 2 * int_of_pos p | M.XI p ->
 let int_of_n = function M.N0 -> 0 | M.Npos p -> int_of_pos p
 
 let rec nat_of_int (i : int) : M.nat = if i <= 0 then M.O else M.S (nat_of_int (i - 1))
+let rec int_of_nat = function M.O -> 0 | M.S n -> 1 + int_of_nat n
 
 (* ---------- bytes ---------- *)
 let byte_tab : M.byte array = Array.init 256 (fun i -> M.n2b (n_of_int i))
@@ -176,6 +177,20 @@ let run_line (line : string) : string =
           | 'c' -> M.CClear
           | _ -> failwith ("bad registry call " ^ tok) in
         M.OReg (List.map call (List.filter (fun t -> t <> "") (String.split_on_char ' ' cs)))
+      | "BF", [a; k; ops] ->
+        let nat s = nat_of_int (int_of_string s) in
+        let bop tok =
+          let rest = String.sub tok 1 (String.length tok - 1) in
+          match tok.[0], String.split_on_char ':' rest with
+          | 'w', [nc; h] -> M.BWrite (nat nc, bytes_of_hex h)
+          | 'g', [nc; n] -> M.BGrow (nat nc, nat n)
+          | 'n', [k] -> M.BNext (nat k)
+          | 'r', [k] -> M.BRead (nat k)
+          | 'z', _ -> M.BReset
+          | 'b', _ -> M.BBytes
+          | 'p', [i; p; h] -> M.BPoke (nat i, nat p, bytes_of_hex h)
+          | _ -> failwith ("bad buffer op " ^ tok) in
+        M.OBuf (bytes_of_hex a, nat k, List.map bop (List.filter (fun t -> t <> "") (String.split_on_char ' ' ops)))
       | _ -> failwith ("bad case line: " ^ line) in
     let tid = match o with M.OEnc (t, _, _) | M.ODec (t, _, _) | M.OZero t -> t | _ -> M.N0 in
     let payload = match M.run_op M.gen_world o with
@@ -192,7 +207,12 @@ let run_line (line : string) : string =
         "ok\t" ^ String.concat " " (List.map (function
           | M.RBool true -> "t" | M.RBool false -> "f"
           | M.RVal (Some v) -> "v" ^ string_of_int (int_of_n v) | M.RVal None -> "n"
-          | M.RUnit -> "u") l) in
+          | M.RUnit -> "u") l)
+      | M.RBuf l ->
+        "ok\t" ^ String.concat " " (List.map (function
+          | None -> "capacity-too-small"
+          | Some ((c, cp), sls) ->
+            hex_of_bytes c ^ "," ^ string_of_int (int_of_nat cp) ^ "," ^ String.concat "|" (List.map hex_of_bytes sls)) l) in
     id ^ "\t" ^ payload
   | _ -> failwith ("bad case line: " ^ line)
 
